@@ -136,3 +136,10 @@ func (r *Rng) Fill(n int) []byte {
 	r.s.PRF(out)
 	return out
 }
+
+// Pos returns the duplex position (for coverage evidence and steering).
+func (s *Strobe) Pos() int      { return int(s.pos) }
+func (t *Transcript) Pos() int  { return t.s.Pos() }
+func (b *RngBuilder) Pos() int  { return b.s.Pos() }
+func (r *Rng) Pos() int         { return r.s.Pos() }
+func KeccakBytes(st *[200]byte) { keccakBytes(st) }
